@@ -548,6 +548,7 @@ META["C19"] = dict(
     rule="A: a case is (set of mode flags, path kind); B: (depth, entry method, failing depth, path-typed keys present). Distinct "
     "by hash; every case is non-trivial (a decision is judged or logged as unspecified).",
     gates={
+        "mon.group_config_in_subcommand_section": g(100, 1000), "mon.list_file_on_argv": g(100, 1000),
         "st.nested.config_dir_through_symlink": g(300, 3000), "st.nested.append_key_with_relative_paths": g(100, 1000),
         "mon.path_type_in_parser_checks": g(500, 5000),
         "mon.path_mode_checks": g(10000, 150000), "st.accept": g(500, 8000), "st.reject": g(5000, 80000),
